@@ -171,12 +171,18 @@ Fn(S, name) == IF name \in FNames THEN S.fn[name] ELSE Undef
 
 RECURSIVE Ev(_, _, _), WLoop(_, _, _, _, _, _), FLoop(_, _, _, _), Items(_, _, _, _, _, _)
 
-\* A subshell environment: a copy of the state; traps are reset; loops and
-\* functions of the parent do not enclose its commands (2.13, break,
-\* return).  What comes back is $?, the observations and the bookkeeping.
+\* A subshell environment: a duplicate of the shell environment (2.13); traps
+\* are reset; loops of the parent do not enclose its commands (break,
+\* continue: "executing in the same execution environment").  The duplicate
+\* is still executing the function its parent was executing, so `return`
+\* stops that execution in the subshell: nothing is left for the subshell
+\* to do and it terminates with the status of return, while the parent goes
+\* on in the function (at top level return stays unspecified).  What comes
+\* back is $?, the observations and the bookkeeping.
 Sub(t, S, C) ==
-  LET S1 == Ev(t, [S EXCEPT !.trap = -1, !.fired = FALSE],
-               [ig |-> C.ig, ld |-> 0, od |-> 0, infn |-> FALSE])
+  LET S0 == Ev(t, [S EXCEPT !.trap = -1, !.fired = FALSE],
+               [ig |-> C.ig, ld |-> 0, od |-> 0, infn |-> C.infn])
+      S1 == IF S0.dv = "ret" THEN [S0 EXCEPT !.dv = "exit"] ELSE S0
       S2 == RunExitTrap(S1)
   IN [S EXCEPT !.st = S2.st, !.tr = S2.tr, !.fuel = S2.fuel, !.en = S2.en, !.nt = S2.nt,
                !.lc = S2.lc,
